@@ -397,6 +397,372 @@ static void b_run_case(void *ctx, mx_result_t *r)
 }
 
 /* ------------------------------------------------------------------ groups */
+
+/* ------------------------------------------------------------------ part C: malicious TLS 1.2 CLIENT (SMACK shapes)
+ * The client is the attacker: it ran the key exchange itself, so it knows the master secret and its own write keys (read
+ * from the honest client instance).  Its second flight (Certificate, ClientKeyExchange, CertificateVerify - plaintext -
+ * ChangeCipherSpec, Finished) is deviated at the message level, the Finished is RECOMPUTED over the transcript the server
+ * sees and sealed under the client's write key (TLS 1.2 AES-GCM).  The server completes only on the honest sequence. */
+typedef struct { int kx; uint16_t suite; int cauth; const char *name; } c_cfg_t;
+static const c_cfg_t ccfgs[] = {
+    { KX_RSA, TLS_RSA_WITH_AES_128_GCM_SHA256, 1, "tls12-rsa-gcm-clientauth" },
+    { KX_ECDHE_RSA, TLS_ECDHE_RSA_WITH_AES_128_GCM_SHA256, 1, "tls12-ecdhe-rsa-gcm-clientauth" },
+    { KX_RSA, TLS_RSA_WITH_AES_128_GCM_SHA256, 0, "tls12-rsa-gcm" },
+    { KX_ECDHE_RSA, TLS_ECDHE_RSA_WITH_AES_128_GCM_SHA256, 0, "tls12-ecdhe-rsa-gcm" },
+};
+#define NCCFG ((int) (sizeof(ccfgs) / sizeof(ccfgs[0])))
+enum { C_NONE = 0, C_DELETE, C_DELETE2, C_DUP, C_SWAP, C_INJECT, C_CCS_FIRST, C_NK };
+static const char *cdname[] = { "none", "delete", "delete-two-consecutive", "duplicate", "swap", "inject-empty", "ccs-before-messages" };
+typedef struct {
+    world_t w;
+    int ci;
+    buf_t tr;                         /* handshake messages exchanged before the client's second flight */
+    unsigned char hs[12000]; int hl;  /* that flight's plaintext handshake messages */
+    tk_msg_t m[8]; int nm;
+    unsigned char ccs[8]; int ccslen;
+    unsigned char ms[48], wkey[32], wsalt[4];
+    int kind, i, t;
+} c_ctx_t;
+
+static int c_setup(c_ctx_t *g)
+{
+    const c_cfg_t *cc = &ccfgs[g->ci];
+    wcfg_t c;
+    int turn = 0, guard = 0, d, k, have_ccs = 0;
+    memset(&c, 0, sizeof(c));
+    c.ver = V_TLS12; c.kx = cc->kx; c.suite = cc->suite; c.client_auth = cc->cauth; c.ems_off = 1;
+    if (world_init(&g->w, &c) < 0)
+    {
+        return -1;
+    }
+    buf_init(&g->tr);
+    world_collect(&g->w, 0);
+    /* honest delivery, recording every plaintext handshake record body, until the client's ChangeCipherSpec is on the wire */
+    while (guard++ < 40)
+    {
+        wire_t *q0 = &g->w.wire[0];
+        for (k = 0; k < q0->n; k++)
+        {
+            if (q0->r[(q0->head + k) % W_MAXREC].p[0] == 20)
+            {
+                have_ccs = 1;
+            }
+        }
+        if (have_ccs)
+        {
+            break;
+        }
+        for (d = 0; d < 2; d++)
+        {
+            int dd = (turn + d) % 2;
+            wire_t *q = &g->w.wire[dd];
+            if (q->n > 0)
+            {
+                rec_t *r = &q->r[q->head];
+                if (r->p[0] == 22 && r->len > 5)
+                {
+                    buf_add(&g->tr, r->p + 5, (size_t) r->len - 5);
+                }
+                break;
+            }
+        }
+        if (!world_step(&g->w, &turn))
+        {
+            return -2;
+        }
+    }
+    if (!have_ccs)
+    {
+        return -3;
+    }
+    /* split the flight: plaintext handshake records, CCS, (encrypted Finished dropped) */
+    g->hl = 0;
+    {
+        wire_t *q0 = &g->w.wire[0];
+        for (k = 0; k < q0->n; k++)
+        {
+            rec_t *r = &q0->r[(q0->head + k) % W_MAXREC];
+            if (r->p[0] == 20)
+            {
+                memcpy(g->ccs, r->p, (size_t) (r->len < 8 ? r->len : 8));
+                g->ccslen = r->len < 8 ? r->len : 8;
+                break;
+            }
+            if (r->p[0] != 22 || g->hl + r->len - 5 > (int) sizeof(g->hs))
+            {
+                return -4;
+            }
+            memcpy(g->hs + g->hl, r->p + 5, (size_t) r->len - 5);
+            g->hl += r->len - 5;
+        }
+    }
+    g->nm = tk_split_msgs(g->hs, g->hl, g->m, 8);
+    if (g->nm < 1)
+    {
+        return -5;
+    }
+    memcpy(g->ms, g->w.s[0].ssl->sec.masterSecret, 48);
+    memcpy(g->wkey, g->w.s[0].ssl->sec.writeKey, 16);
+    memcpy(g->wsalt, g->w.s[0].ssl->sec.writeIV, 4);
+    world_wire_clear(&g->w, 0);
+    return 0;
+}
+
+static void c_run_case(void *ctx, mx_result_t *r)
+{
+    c_ctx_t *g = ctx;
+    const c_cfg_t *cc = &ccfgs[g->ci];
+    tk_msg_t out[20];
+    unsigned char empty[4], rec[16500], fin[16], vd[12];
+    int no = 0, i, legal, complete, rl;
+    buf_t tr;
+    r->nontrivial = g->kind != C_NONE;
+    for (i = 0; i <= g->nm; i++)
+    {
+        if (g->kind == C_INJECT && g->i == i)
+        {
+            empty[0] = (unsigned char) g->t; empty[1] = empty[2] = empty[3] = 0;
+            out[no].type = g->t; out[no].p = empty; out[no].len = 4;
+            no++;
+        }
+        if (i == g->nm)
+        {
+            break;
+        }
+        if (g->kind == C_DELETE && g->i == i) continue;
+        if (g->kind == C_DELETE2 && (g->i == i || g->i + 1 == i)) continue;
+        if (g->kind == C_SWAP && g->i == i && i + 1 < g->nm)
+        {
+            out[no++] = g->m[i + 1];
+            out[no++] = g->m[i];
+            i++;
+            continue;
+        }
+        out[no++] = g->m[i];
+        if (g->kind == C_DUP && g->i == i)
+        {
+            out[no++] = g->m[i];
+        }
+    }
+    buf_init(&tr);
+    buf_add(&tr, g->tr.p, g->tr.len);
+    if (g->kind == C_CCS_FIRST)
+    {
+        world_feed(&g->w, 1, g->ccs, g->ccslen);
+    }
+    for (i = 0; i < no; i++)
+    {
+        rec[0] = 22; rec[1] = 3; rec[2] = 3; rec[3] = (unsigned char) (out[i].len >> 8); rec[4] = (unsigned char) out[i].len;
+        memcpy(rec + 5, out[i].p, (size_t) out[i].len);
+        buf_add(&tr, out[i].p, (size_t) out[i].len);
+        if (g->w.s[1].err_rc < 0 || g->w.s[1].ssl->err != SSL_ALERT_NONE)
+        {
+            break;
+        }
+        world_feed(&g->w, 1, rec, 5 + out[i].len);
+    }
+    if (g->kind != C_CCS_FIRST)
+    {
+        world_feed(&g->w, 1, g->ccs, g->ccslen);
+    }
+    /* Finished over exactly what the server has seen */
+    tk12_finished(g->ms, 1, &tr, vd);
+    fin[0] = 20; fin[1] = 0; fin[2] = 0; fin[3] = 12;
+    memcpy(fin + 4, vd, 12);
+    rl = tk12_gcm_seal(g->wkey, 16, g->wsalt, 0, 22, fin, 16, rec);
+    if (rl > 0 && !(g->w.s[1].err_rc < 0 || g->w.s[1].ssl->err != SSL_ALERT_NONE))
+    {
+        world_feed(&g->w, 1, rec, rl);
+    }
+    complete = world_is_complete(&g->w, 1);
+    legal = g->kind == C_NONE;
+    snprintf(r->outcome, sizeof(r->outcome), "%s:server:%s:%s:alert%d", cc->name, cdname[g->kind], complete ? "COMPLETE" : "refused", g->w.s[1].ssl->err);
+    r->transitions = (uint32_t) no + 2;
+    r->trace_hash = world_trace_hash(&g->w);
+    if (complete && !legal)
+    {
+        r->violation = 1;
+        snprintf(r->key, sizeof(r->key), "%s|victim=server|%s|completed-with-illegal-sequence", cc->name, cdname[g->kind]);
+        snprintf(r->what, sizeof(r->what), "%s server completed its handshake although the malicious client's flight was deviated: %s at position %d (type %d), Finished recomputed over the deviated transcript and sealed under the client's own write key",
+            cc->name, cdname[g->kind], g->i, g->kind == C_INJECT ? g->t : (g->i < g->nm ? g->m[g->i].type : -1));
+    }
+    else if (!complete && legal)
+    {
+        r->violation = 1;
+        snprintf(r->key, sizeof(r->key), "%s|victim=server|legal-sequence-refused", cc->name);
+        snprintf(r->what, sizeof(r->what), "%s server refused the untouched client flight with a toolkit-made Finished (alert %d): toolkit or library mismatch", cc->name, g->w.s[1].ssl->err);
+    }
+    buf_free(&tr);
+}
+
+
+/* ------------------------------------------------------------------ part D: malicious TLS 1.2 SERVER
+ * The server's first flight (ServerHello, Certificate, ServerKeyExchange, CertificateRequest, ServerHelloDone - plaintext)
+ * is deviated at the message level.  If the client answers with its own flight, the attacker completes the handshake with
+ * ChangeCipherSpec and a Finished computed over the transcript the CLIENT has seen, sealed under the key the client reads
+ * with (master secret and keys are read from the client instance: an over-approximation of what a malicious server can
+ * derive - a reported completion is inspected by hand before it is called a defect). */
+typedef struct {
+    world_t w;
+    int ci;
+    buf_t tr;                          /* ClientHello */
+    unsigned char hs[12000]; int hl;   /* the server's first flight */
+    tk_msg_t m[8]; int nm;
+    int kind, i, t;
+} d_ctx_t;
+
+static int d_setup(d_ctx_t *g)
+{
+    const c_cfg_t *cc = &ccfgs[g->ci];
+    wcfg_t c;
+    int k;
+    wire_t *q;
+    memset(&c, 0, sizeof(c));
+    c.ver = V_TLS12; c.kx = cc->kx; c.suite = cc->suite; c.client_auth = cc->cauth; c.ems_off = 1;
+    if (world_init(&g->w, &c) < 0)
+    {
+        return -1;
+    }
+    buf_init(&g->tr);
+    world_collect(&g->w, 0);
+    q = &g->w.wire[0];
+    if (q->n != 1 || q->r[q->head].p[0] != 22)
+    {
+        return -2;
+    }
+    buf_add(&g->tr, q->r[q->head].p + 5, (size_t) q->r[q->head].len - 5);
+    world_deliver(&g->w, 0);
+    q = &g->w.wire[1];
+    g->hl = 0;
+    for (k = 0; k < q->n; k++)
+    {
+        rec_t *r = &q->r[(q->head + k) % W_MAXREC];
+        if (r->p[0] != 22 || g->hl + r->len - 5 > (int) sizeof(g->hs))
+        {
+            return -3;
+        }
+        memcpy(g->hs + g->hl, r->p + 5, (size_t) r->len - 5);
+        g->hl += r->len - 5;
+    }
+    g->nm = tk_split_msgs(g->hs, g->hl, g->m, 8);
+    if (g->nm < 2)
+    {
+        return -4;
+    }
+    world_wire_clear(&g->w, 1);
+    return 0;
+}
+
+static void d_run_case(void *ctx, mx_result_t *r)
+{
+    d_ctx_t *g = ctx;
+    const c_cfg_t *cc = &ccfgs[g->ci];
+    tk_msg_t out[20];
+    unsigned char empty[4], rec[16500], fin[16], vd[12];
+    static const unsigned char ccs[6] = { 20, 3, 3, 0, 1, 1 };
+    int no = 0, i, legal, complete, rl, answered = 0, k;
+    buf_t tr;
+    wire_t *q;
+    r->nontrivial = g->kind != C_NONE;
+    for (i = 0; i <= g->nm; i++)
+    {
+        if (g->kind == C_INJECT && g->i == i)
+        {
+            empty[0] = (unsigned char) g->t; empty[1] = empty[2] = empty[3] = 0;
+            out[no].type = g->t; out[no].p = empty; out[no].len = 4;
+            no++;
+        }
+        if (i == g->nm) break;
+        if (g->kind == C_DELETE && g->i == i) continue;
+        if (g->kind == C_DELETE2 && (g->i == i || g->i + 1 == i)) continue;
+        if (g->kind == C_SWAP && g->i == i && i + 1 < g->nm)
+        {
+            out[no++] = g->m[i + 1];
+            out[no++] = g->m[i];
+            i++;
+            continue;
+        }
+        out[no++] = g->m[i];
+        if (g->kind == C_DUP && g->i == i) out[no++] = g->m[i];
+    }
+    buf_init(&tr);
+    buf_add(&tr, g->tr.p, g->tr.len);
+    for (i = 0; i < no; i++)
+    {
+        rec[0] = 22; rec[1] = 3; rec[2] = 3; rec[3] = (unsigned char) (out[i].len >> 8); rec[4] = (unsigned char) out[i].len;
+        memcpy(rec + 5, out[i].p, (size_t) out[i].len);
+        buf_add(&tr, out[i].p, (size_t) out[i].len);
+        if (g->w.s[0].err_rc < 0 || g->w.s[0].ssl->err != SSL_ALERT_NONE) break;
+        world_feed(&g->w, 0, rec, 5 + out[i].len);
+    }
+    /* did the client answer with a flight that ends in ChangeCipherSpec + Finished? */
+    q = &g->w.wire[0];
+    for (k = 0; k < q->n; k++)
+    {
+        rec_t *x = &q->r[(q->head + k) % W_MAXREC];
+        if (x->p[0] == 22 && !answered)
+        {
+            buf_add(&tr, x->p + 5, (size_t) x->len - 5);   /* its plaintext handshake messages */
+        }
+        if (x->p[0] == 20)
+        {
+            answered = 1;
+        }
+    }
+    if (answered && g->w.s[0].ssl->err == SSL_ALERT_NONE)
+    {
+        unsigned char ms[48], rkey[16], rsalt[4];
+        memcpy(ms, g->w.s[0].ssl->sec.masterSecret, 48);
+        /* the client's own Finished is part of the transcript the server Finished covers */
+        tk12_finished(ms, 1, &tr, vd);
+        fin[0] = 20; fin[1] = 0; fin[2] = 0; fin[3] = 12;
+        memcpy(fin + 4, vd, 12);
+        buf_add(&tr, fin, 16);
+        tk12_finished(ms, 0, &tr, vd);
+        memcpy(fin + 4, vd, 12);
+        world_wire_clear(&g->w, 0);
+        world_feed(&g->w, 0, ccs, 6);
+        /* the ChangeCipherSpec made the client activate the key it reads with */
+        memcpy(rkey, g->w.s[0].ssl->sec.readKey, 16);
+        memcpy(rsalt, g->w.s[0].ssl->sec.readIV, 4);
+        rl = tk12_gcm_seal(rkey, 16, rsalt, 0, 22, fin, 16, rec);
+        if (rl > 0)
+        {
+            world_feed(&g->w, 0, rec, rl);
+        }
+    }
+    complete = world_is_complete(&g->w, 0);
+    /* legal language of the server's first flight: the honest type sequence, with the optional CertificateRequest
+     * present or absent (a flight without it is the legal handshake without client authentication) */
+    {
+        int a = 0, b = 0;
+        legal = 1;
+        while (legal && (a < no || b < g->nm))
+        {
+            if (a < no && b < g->nm && out[a].type == g->m[b].type && out[a].p == g->m[b].p) { a++; b++; }
+            else if (b < g->nm && g->m[b].type == 13) b++;
+            else legal = 0;
+        }
+    }
+    snprintf(r->outcome, sizeof(r->outcome), "%s:client:%s:%s:%s:alert%d", cc->name, cdname[g->kind], answered ? "answered" : "no-answer", complete ? "COMPLETE" : "refused", g->w.s[0].ssl->err);
+    r->transitions = (uint32_t) no + 2;
+    r->trace_hash = world_trace_hash(&g->w);
+    if (complete && !legal)
+    {
+        r->violation = 1;
+        snprintf(r->key, sizeof(r->key), "%s|victim=client|%s|completed-with-illegal-sequence", cc->name, cdname[g->kind]);
+        snprintf(r->what, sizeof(r->what), "%s client completed its handshake although the malicious server's first flight was deviated: %s at position %d (type %d); server Finished computed over the transcript the client saw",
+            cc->name, cdname[g->kind], g->i, g->kind == C_INJECT ? g->t : (g->i < g->nm ? g->m[g->i].type : -1));
+    }
+    else if (!complete && g->kind == C_NONE)
+    {
+        r->violation = 1;
+        snprintf(r->key, sizeof(r->key), "%s|victim=client|legal-sequence-refused", cc->name);
+        snprintf(r->what, sizeof(r->what), "%s client refused the untouched server flight with a toolkit-made Finished (alert %d, answered %d): toolkit or library mismatch", cc->name, g->w.s[0].ssl->err, answered);
+    }
+    buf_free(&tr);
+}
+
 typedef struct { int part, ci, victim; } grp_t;
 static grp_t groups[64];
 static long ngroups;
@@ -404,6 +770,94 @@ static long ngroups;
 static void run_group(long gi, void *unused)
 {
     (void) unused;
+    if (groups[gi].part == 3)
+    {
+        static d_ctx_t g;
+        static const int dtypes[] = { 0, 1, 2, 4, 11, 12, 13, 14, 15, 16, 20, 22, 254 };
+        int i, t, rc;
+        memset(&g, 0, sizeof(g));
+        g.ci = groups[gi].ci;
+        if ((rc = d_setup(&g)) != 0)
+        {
+            mx_result_t r;
+            memset(&r, 0, sizeof(r));
+            r.violation = 2;
+            snprintf(r.key, sizeof(r.key), "toolkit-setup-failed|%s|server-flight|rc=%d", ccfgs[g.ci].name, rc);
+            snprintf(r.what, sizeof(r.what), "toolkit could not take over the server flight of %s (rc %d)", ccfgs[g.ci].name, rc);
+            snprintf(r.desc, sizeof(r.desc), "D;c=%d", g.ci);
+            mx_record(&r);
+            return;
+        }
+#define DFORK(K, I, T) do { char desc[200]; g.kind = (K); g.i = (I); g.t = (T); \
+        snprintf(desc, sizeof(desc), "D;c=%d;k=%d;i=%d;t=%d (%s malicious server: %s pos=%d type=%d of %d msgs)", g.ci, (K), (I), (T), ccfgs[g.ci].name, cdname[K], (I), (T), g.nm); \
+        mx_fork_case(desc, d_run_case, &g); } while (0)
+        DFORK(C_NONE, 0, 0);
+        for (i = 0; i < g.nm; i++)
+        {
+            DFORK(C_DELETE, i, 0);
+            DFORK(C_DUP, i, 0);
+            if (i + 1 < g.nm) DFORK(C_SWAP, i, 0);
+            if (i + 1 < g.nm) DFORK(C_DELETE2, i, 0);
+        }
+        for (i = 0; i <= g.nm; i++)
+        {
+            for (t = 0; t < (int) (sizeof(dtypes) / sizeof(dtypes[0])); t++) DFORK(C_INJECT, i, dtypes[t]);
+            if (thorough)
+            {
+                for (t = 0; t < 256; t++) DFORK(C_INJECT, i, t);
+            }
+        }
+#undef DFORK
+        world_free(&g.w);
+        buf_free(&g.tr);
+        return;
+    }
+    if (groups[gi].part == 2)
+    {
+        static c_ctx_t g;
+        static const int ctypes[] = { 0, 1, 2, 4, 11, 12, 13, 14, 15, 16, 20, 22, 254 };
+        int i, t, rc;
+        memset(&g, 0, sizeof(g));
+        g.ci = groups[gi].ci;
+        if ((rc = c_setup(&g)) != 0)
+        {
+            mx_result_t r;
+            memset(&r, 0, sizeof(r));
+            r.violation = 2;
+            snprintf(r.key, sizeof(r.key), "toolkit-setup-failed|%s|rc=%d", ccfgs[g.ci].name, rc);
+            snprintf(r.what, sizeof(r.what), "toolkit could not take over the client flight of %s (rc %d)", ccfgs[g.ci].name, rc);
+            snprintf(r.desc, sizeof(r.desc), "C;c=%d", g.ci);
+            mx_record(&r);
+            return;
+        }
+#define CFORK(K, I, T) do { char desc[200]; g.kind = (K); g.i = (I); g.t = (T); \
+        snprintf(desc, sizeof(desc), "C;c=%d;k=%d;i=%d;t=%d (%s malicious client: %s pos=%d type=%d of %d msgs)", g.ci, (K), (I), (T), ccfgs[g.ci].name, cdname[K], (I), (T), g.nm); \
+        mx_fork_case(desc, c_run_case, &g); } while (0)
+        CFORK(C_NONE, 0, 0);
+        CFORK(C_CCS_FIRST, 0, 0);
+        for (i = 0; i < g.nm; i++)
+        {
+            CFORK(C_DELETE, i, 0);
+            CFORK(C_DUP, i, 0);
+            if (i + 1 < g.nm) CFORK(C_SWAP, i, 0);
+            if (i + 1 < g.nm) CFORK(C_DELETE2, i, 0);
+        }
+        for (i = 0; i <= g.nm; i++)
+        {
+            for (t = 0; t < (int) (sizeof(ctypes) / sizeof(ctypes[0])); t++)
+            {
+                CFORK(C_INJECT, i, ctypes[t]);
+            }
+            if (thorough)
+            {
+                for (t = 0; t < 256; t++) CFORK(C_INJECT, i, t);
+            }
+        }
+#undef CFORK
+        world_free(&g.w);
+        buf_free(&g.tr);
+        return;
+    }
     if (groups[gi].part == 0)
     {
         static a_ctx_t g;
@@ -537,6 +991,40 @@ int main(int argc, char **argv)
             a_run_case(&g, &r);
             fprintf(stderr, "%s", (char *) g.w.trace.p);
         }
+        else if (replay[0] == 'D')
+        {
+            static d_ctx_t g;
+            int rc;
+            memset(&g, 0, sizeof(g));
+            if (sscanf(replay, "D;c=%d;k=%d;i=%d;t=%d", &g.ci, &g.kind, &g.i, &g.t) != 4 || g.ci >= NCCFG)
+            {
+                return 2;
+            }
+            if ((rc = d_setup(&g)) != 0)
+            {
+                fprintf(stderr, "setup failed %d\n", rc);
+                return 2;
+            }
+            d_run_case(&g, &r);
+            fprintf(stderr, "%s", (char *) g.w.trace.p);
+        }
+        else if (replay[0] == 'C')
+        {
+            static c_ctx_t g;
+            int rc;
+            memset(&g, 0, sizeof(g));
+            if (sscanf(replay, "C;c=%d;k=%d;i=%d;t=%d", &g.ci, &g.kind, &g.i, &g.t) != 4 || g.ci >= NCCFG)
+            {
+                return 2;
+            }
+            if ((rc = c_setup(&g)) != 0)
+            {
+                fprintf(stderr, "setup failed %d\n", rc);
+                return 2;
+            }
+            c_run_case(&g, &r);
+            fprintf(stderr, "%s", (char *) g.w.trace.p);
+        }
         else
         {
             b_case_t bc, hb;
@@ -574,6 +1062,11 @@ int main(int argc, char **argv)
             return 2;
         }
         groups[ngroups++] = (grp_t) { 1, i, 0 };
+    }
+    for (i = 0; i < NCCFG; i++)
+    {
+        groups[ngroups++] = (grp_t) { 2, i, 1 };
+        groups[ngroups++] = (grp_t) { 3, i, 0 };
     }
     mx_parallel(ngroups, run_group, NULL);
     return mx_finish(NULL);
